@@ -190,8 +190,8 @@ pub fn run(args: &Args, report: &mut Report) {
     let prop = args.prop.clone();
     let mut rng = Rng::new(args.seed).fork(hash_str(&prop)).fork(args.shard);
     let (cases, nconf, max_input) = match (args.thorough, prop.as_str()) {
-        (false, "C16") => (14, 3, 600),
-        (false, _) => (10, 4, 400),
+        (false, "C16") => (20, 3, 600),
+        (false, _) => (16, 4, 400),
         (true, "C16") => (160, 4, 3000),
         (true, _) => (130, 6, 3000),
     };
